@@ -13,6 +13,7 @@
 #include "cpu.h"
 #include "scheme.h"
 #include "tree_instance.h"
+#include "verif_hook.h"
 #include "version.h"
 
 #include "glog/logging.h"
@@ -127,6 +128,7 @@ public:
 
     [[nodiscard]] key_length_type
     get_key_length_at(const std::size_t index) const {
+        YK_VP(k_key_load, &key_length_.at(index), 1, index);
         return key_length_.at(index);
     }
 
@@ -137,6 +139,7 @@ public:
 
     [[nodiscard]] key_slice_type
     get_key_slice_at(const std::size_t index) const {
+        YK_VP(k_key_load, &key_slice_.at(index), 8, index);
         return key_slice_.at(index);
     }
 
@@ -294,6 +297,7 @@ public:
         memmove(&key_length_.at(start_pos - shift_size),
                 &key_length_.at(start_pos),
                 sizeof(key_length_type) * (key_slice_length - start_pos));
+        YK_VP(k_bulk_store, this, 0, 0);
     }
 
     void shift_right_base_member(const std::size_t start,
@@ -304,6 +308,7 @@ public:
         memmove(&key_length_.at(start + shift_size), &key_length_.at(start),
                 sizeof(key_length_type) *
                         (key_slice_length - start - shift_size));
+        YK_VP(k_bulk_store, this, 0, 0);
     }
 
     /**
